@@ -523,7 +523,8 @@ Proof.
     - exact (scalar_string_expr_wf _ _ _ _ _ Hex).
     - apply bind_ok_inv in Hex. destruct Hex as (a & Hm & Hf).
       apply (finish_seq_wf ki a); [|exact Hf].
-      apply (seq_members_wf _ _ _ _ _ acc0 _ _ HF (Forall_nil _) Hm).
+      refine (seq_members_wf _ _ _ _ _ _ _ _ HF _ Hm).
+      destruct (misc_is MStr (k_misc ki)); apply Forall_nil.
     - destruct (k_misc ki); [discriminate Hex|].
       destruct sub as [r|]; [|discriminate Hex].
       apply bind_ok_inv in Hex. destruct Hex as (x & Hr & Hx). inversion Hx; subst.
